@@ -888,7 +888,7 @@ func (l *Lowerer) lowerGlobalVar(v *parser.VarDecl) error {
 	for _, attr := range v.Attributes {
 		if attr.Name == "group" && len(attr.Args) > 0 {
 			if lit, ok := attr.Args[0].(*parser.Literal); ok {
-				group, _ := strconv.ParseUint(lit.Value, 10, 32)
+				group, _ := parseIntLiteral(lit.Value)
 				if binding == nil {
 					binding = &ir.ResourceBinding{}
 				}
@@ -898,7 +898,7 @@ func (l *Lowerer) lowerGlobalVar(v *parser.VarDecl) error {
 		}
 		if attr.Name == "binding" && len(attr.Args) > 0 {
 			if lit, ok := attr.Args[0].(*parser.Literal); ok {
-				bind, _ := strconv.ParseUint(lit.Value, 10, 32)
+				bind, _ := parseIntLiteral(lit.Value)
 				if binding == nil {
 					binding = &ir.ResourceBinding{}
 				}
@@ -12912,7 +12912,7 @@ func (l *Lowerer) collectBinding(attrs []parser.Attribute) *ir.Binding {
 		case "location":
 			if len(attr.Args) > 0 {
 				if lit, ok := attr.Args[0].(*parser.Literal); ok {
-					loc, _ := strconv.ParseUint(lit.Value, 10, 32)
+					loc, _ := parseIntLiteral(lit.Value)
 					if locBinding == nil {
 						locBinding = &ir.LocationBinding{}
 					}
@@ -12922,7 +12922,7 @@ func (l *Lowerer) collectBinding(attrs []parser.Attribute) *ir.Binding {
 		case "blend_src":
 			if len(attr.Args) > 0 {
 				if lit, ok := attr.Args[0].(*parser.Literal); ok {
-					idx, _ := strconv.ParseUint(lit.Value, 10, 32)
+					idx, _ := parseIntLiteral(lit.Value)
 					if locBinding == nil {
 						locBinding = &ir.LocationBinding{}
 					}
